@@ -207,7 +207,8 @@ def g_lock_acquired(body, facts):
         for i, s in enumerate(body.stmts(b)):
             if s["k"] == "assign" and s["rv"]["k"] == "discr":
                 ty = body.place_ty(s["rv"]["pl"])
-                if "Option<lock_api::" in ty and "Guard<" in ty:
+                if ("Option<lock_api::" in ty and "Guard<" in ty) or (ty.startswith("core::ops::control_flow::ControlFlow<core::option::Option<core::convert::Infallible>") and "Guard<" in ty):
+                    # (the second form is `lock.try_lock()?` inside an Option-returning function)
                     # the switch using this discriminant
                     dl = s["pl"]["l"]
                     for sb in range(body.n):
